@@ -322,6 +322,37 @@ def convColon (vt1 vt2 : VT) : Option VT :=
 /-- C-style cast `(T)a`: `parsedecl` of the type in the parentheses -/
 def convCast (target : CT) : VT := declVT target
 
+/-! ## Integer literals (`setValueTypeInTokenList`, the `tok->isNumber()` / `MathLib::isInt` branch) -/
+
+/-- `Platform::max_value(bit)`: `(1LL << (bit-1)) - 1`, for `bit >= 64` the constant `(~0ULL) >> 1` -/
+def maxValue (bit : Nat) : Nat := if bit ≥ 64 then 2 ^ 63 - 1 else 2 ^ (bit - 1) - 1
+
+/-- the type given to an integer literal when the platform is not `Unspecified`.
+    `imax lmax llmax` = `max_value(int_bit)`, `max_value(long_bit)`, `max_value(long_long_bit)`;
+    `dec` = `MathLib::isDec(tokStr)` (digits only — an OCTAL literal is `dec` for the code);
+    `us` = the spelling contains `u`/`U`; `longs` = number of `l`/`L` in the suffix (0, 1, 2);
+    `value` = `MathLib::toBigUNumber(tokStr)`.
+    The code tests `isIntValue(unsignedSuffix ? value >> 1 : value)` and, for non-decimal spellings,
+    `isIntValue(value >> 2)` (sic: `>> 2`, which admits values up to `4*imax+3`, twice `UINT_MAX`). -/
+def litTypeCore (imax lmax llmax : Nat) (dec us : Bool) (longs value : Nat) : VT :=
+  let sign0 : Sign := if us then .unsigned else .signed
+  let v1 := if us then value >>> 1 else value
+  if longs = 0 ∧ v1 ≤ imax then ⟨.int, sign0⟩
+  else if longs = 0 ∧ dec = false ∧ value >>> 2 ≤ imax then ⟨.int, .unsigned⟩
+  else if longs ≤ 1 ∧ v1 ≤ lmax then ⟨.long, sign0⟩
+  else if longs ≤ 1 ∧ dec = false ∧ value >>> 2 ≤ lmax then ⟨.long, .unsigned⟩
+  else if v1 ≤ llmax then ⟨.llong, sign0⟩
+  else ⟨.llong, .unsigned⟩
+
+/-- `Platform::Type::Unspecified`: the suffix alone decides -/
+def litTypeUnspecified (us : Bool) (longs : Nat) : VT :=
+  ⟨if longs = 0 then .int else if longs = 1 then .long else .llong, if us then .unsigned else .signed⟩
+
+def litType (P : Plat) (unspecified : Bool) (dec us : Bool) (longs value : Nat) : VT :=
+  if unspecified then litTypeUnspecified us longs
+  else litTypeCore (maxValue (P.charBit * P.sizeofInt)) (maxValue (P.charBit * P.sizeofLong))
+         (maxValue (P.charBit * P.sizeofLongLong)) dec us longs value
+
 /-! ## Rendering for the driver -/
 
 def VType.str : VType → String
